@@ -177,7 +177,7 @@ def main(argv=None):
         ev = dict(property_id=prop_id, tier=a.tier, seed=seed, level="proof", coverage=cov,
                   assumptions=list(getattr(mod, "ASSUMPTIONS", [])), wall_s=round(wall, 2),
                   violations=len(new_fail) + (1 if (broken and not new_fail) else 0))
-        core.write_json(os.path.join(core.VERIF, "evidence", "%s.json" % prop_id), ev)
+        core.write_json(os.path.join(os.environ.get("VERIF_EVIDENCE_DIR") or os.path.join(core.VERIF, "evidence"), "%s.json" % prop_id), ev)
         print("%s %s: theorems %d/%d, evaluations %d (distinct non-trivial %d), model requests %d, %.1fs -> %s" % (
             prop_id, a.tier, aud["discharged"], aud["obligations"], ctx.evaluations, len(ctx.nontrivial),
             ctx.model.calls, wall, "OK" if rc == 0 else "VIOLATION"))
